@@ -760,6 +760,7 @@ func runC15(c *Ctx) {
 	// the sweep runs over a snapshot: a slice the registry keeps writing is not one
 	ruleNoAliasedSnapshots(c, "R15.i")
 	ruleStopClosesWhatIsOpen(c, "R15.g")
+	ruleLifecycleErrorsPropagate(c, "R15.j")
 	ruleRegistryBracket(c, "R15.e")
 	ruleConnKeyUnique(c, "R15.e")
 	c.assume("ports are re-bindable once their listener is closed (kernel); the application does not call lifecycle methods concurrently with each other")
